@@ -701,6 +701,73 @@ mod globset {
 	}
 }
 
+mod discover {
+	use super::*;
+	use ignore_files::{from_origin, IgnoreFilesFromOriginArgs};
+	use std::path::{Path, PathBuf};
+
+	fn rel(base: &Path, comps: &Value) -> PathBuf {
+		let mut p = base.to_path_buf();
+		for c in comps.as_array().unwrap() {
+			p.push(c.as_str().unwrap());
+		}
+		p
+	}
+
+	pub async fn run(case: &Value, scratch: &Path) -> Value {
+		let variant = case["case"].as_u64().unwrap_or(0) as usize;
+		let tmp = tempfile::tempdir_in(scratch).unwrap();
+		let origin = tmp.path().canonicalize().unwrap().join("proj");
+		// create the directories in an order that depends on the case, to vary readdir order
+		let mut dirs = vec!["test/sub", "tests/sub", "a", ".git/info"];
+		dirs.rotate_left(variant % 4);
+		if variant % 2 == 1 {
+			dirs.reverse();
+		}
+		for d in dirs {
+			std::fs::create_dir_all(origin.join(d)).unwrap();
+		}
+		for d in ["", "test", "tests", "a", "test/sub", "tests/sub"] {
+			std::fs::write(origin.join(d).join("x.o"), b"x").unwrap();
+		}
+		for f in case["files"].as_array().unwrap() {
+			let dir = rel(&origin, &f["loc"]);
+			let lines: Vec<&str> = f["lines"].as_array().unwrap().iter().map(|l| l.as_str().unwrap()).collect();
+			let content = if lines.is_empty() { String::new() } else { lines.join("\n") + "\n" };
+			std::fs::write(dir.join(f["kind"].as_str().unwrap()), content).unwrap();
+		}
+		if case["exclude"]["on"].as_bool().unwrap() {
+			let lines: Vec<&str> = case["exclude"]["lines"].as_array().unwrap().iter().map(|l| l.as_str().unwrap()).collect();
+			let content = if lines.is_empty() { String::new() } else { lines.join("\n") + "\n" };
+			std::fs::write(origin.join(".git/info/exclude"), content).unwrap();
+		}
+		let watches: Vec<PathBuf> = case["watches"].as_array().unwrap().iter().map(|w| rel(&origin, w)).collect();
+		let args = match IgnoreFilesFromOriginArgs::new(&origin, watches, Vec::new()) {
+			Ok(a) => a,
+			Err(e) => return json!({"error": e.to_string()}),
+		};
+		let (files, errors) = from_origin(args).await;
+		let mut found = Vec::new();
+		for f in files {
+			let dir = f.path.parent().unwrap().to_path_buf();
+			let name = f.path.strip_prefix(&origin).map(|p| p.display().to_string()).unwrap_or_else(|_| f.path.display().to_string());
+			let kind = if name == ".git/info/exclude" { name.clone() } else { f.path.file_name().unwrap().to_string_lossy().to_string() };
+			let loc: Vec<String> = if kind == ".git/info/exclude" {
+				Vec::new()
+			} else {
+				dir.strip_prefix(&origin).map(|p| p.components().map(|c| c.as_os_str().to_string_lossy().to_string()).collect()).unwrap_or_default()
+			};
+			let applies_in_ok = f.applies_in.as_deref() == Some(if kind == ".git/info/exclude" { origin.as_path() } else { dir.as_path() });
+			found.push(json!({
+				"loc": loc, "kind": kind,
+				"applies_to": f.applies_to.map_or("-".to_string(), |t| format!("{t:?}")),
+				"applies_in_ok": applies_in_ok,
+			}));
+		}
+		json!({"found": found, "errors": errors.iter().map(ToString::to_string).collect::<Vec<_>>()})
+	}
+}
+
 fn main() {
 	let args: Vec<String> = std::env::args().collect();
 	let kind = args[1].clone();
@@ -777,6 +844,7 @@ fn main() {
 							"ignore" => ignore::run(case, &scratch).await,
 							"cliflags" => cliflags::run(case, &scratch).await,
 							"signals" => signals::run(case),
+							"discover" => discover::run(case, &scratch).await,
 							"globset" => globset::run(case, &scratch).await,
 							"paths" => paths::run(case),
 							"eventjson" => eventjson::run(case),
